@@ -269,3 +269,43 @@ def add_node_step():
     if k is not None:
         sym.check("an:handle_knows_output_count", len(list(new)) == k)
     sym.check("an:count", h.num_nodes() == len(live) + 2 and len(h) == len(live) + 2)
+
+
+@lemma("C04", unbounded="the shared port's offset (any integer >= -1)",
+       bounds="one port carrying 4 links (quick) / 5 (thorough), fan-out from one source port or fan-in to one target port, the other ends pairwise distinct ports or all the same port; delete the link at a symbolic position; then add one more link to the same port",
+       outside="larger fan-outs", opts={"max_paths": 400000, "timeout_s": 3000})
+def delete_in_fanout_step():
+    F = P(4, 5)
+    fan_out = sym.concretize(sym.bool("fan_out"))
+    o = sym.int("shared.offset", -1, None)
+    links = []
+    same_target = sym.concretize(sym.bool("all_to_same_port"))
+    for i in range(F):
+        b = 2 if same_target else 1 + i % 2
+        q = 0 if same_target else i // 2
+        links.append(store.Link(True, 1, o, b, q) if fan_out else store.Link(True, b, q, 1, o))
+    h, nodes = store.make_store(3, links)
+    k = sym.concretize(sym.int("delete_position", 0, F - 1))
+    sym.predicate("at_least_two_links_after_the_deleted_one", k <= F - 3)
+    victim = links[k]
+    # delete_link removes the FIRST link with these endpoints: model accordingly
+    first = k
+    for j in range(k):
+        if sym.concretize(sym.and_(links[j].a == victim.a, links[j].o == victim.o, links[j].b == victim.b, links[j].q == victim.q)):
+            first = j
+            break
+    h.delete_link(OutPort(Node(victim.a), victim.o), InPort(Node(victim.b), victim.q))
+    after = [l for j, l in enumerate(links) if j != first]
+    _port_checks(h, nodes, after, "fan", 1, o, 1, o)
+    _port_checks(h, nodes, after, "fan_other")
+    _links_multiset(h, after, "fan")
+    # the port stays usable: a further link is appended at the end
+    nb, nq = 2, sym.int("new.other_off", 0, 1)
+    if fan_out:
+        h.add_link(OutPort(Node(1), o), InPort(Node(nb), nq))
+        after2 = after + [store.Link(True, 1, o, nb, nq)]
+    else:
+        h.add_link(OutPort(Node(nb), nq), InPort(Node(1), o))
+        after2 = after + [store.Link(True, nb, nq, 1, o)]
+    _port_checks(h, nodes, after2, "fan_then_add", 1, o, 1, o)
+    _links_multiset(h, after2, "fan_then_add")
